@@ -1,6 +1,7 @@
 (* C02 — generated response types decode every spec-conformant response faithfully.
    Model: Rt/JsonDecode.v on the declarations of Gen/Convert.v. *)
-From Verif Require Import Base.Str Gen.Consts Gen.Gql Gen.Directive Gen.Convert Rt.JsonDecode Proofs.JsonProofs.
+From Verif Require Import Base.Str Gen.Consts Gen.Gql Gen.Directive Gen.Convert Rt.JsonDecode Proofs.JsonProofs
+  Proofs.SecondPassProofs.
 
 (* each interface/union value holds the Go struct generated for the response's __typename, and
    its content is the same object decoded as that struct *)
@@ -68,3 +69,34 @@ Theorem C02_witness :
                                                      VIface (b "QItemsA") (VStruct (b "QItemsA") [(b "Typename", VScalar (JStr (b "A"))); (b "Id", VScalar (JStr (b "7")))])])]).
 Proof. exact w_two_ok. Qed.
 Print Assumptions C02_witness.
+
+(* "... and in every embedded fragment struct that selects that key": each embedded fragment
+   struct is decoded from the SAME object as the struct that embeds it, and that is what the
+   struct holds for it afterwards *)
+Theorem C02_embedded_fragment_gets_the_same_object :
+  forall dec filler j caps pre fl post acc fs,
+    second_pass dec filler j caps (pre ++ fl :: post) acc = Ok fs ->
+    special fl = true -> gf_name fl = [] ->
+    (forall fl', In fl' post -> special fl' = true -> sp_key fl' <> field_key fl) ->
+    exists acc' x,
+      second_pass dec filler j caps pre acc = Ok acc'
+      /\ dec (unwrap (gf_type fl)) j (get_field acc' (field_key fl) (zero_of (unwrap (gf_type fl)))) = Ok x
+      /\ forall d, get_field fs (field_key fl) d = x.
+Proof. exact embedded_fragment_gets_the_same_object. Qed.
+Print Assumptions C02_embedded_fragment_gets_the_same_object.
+
+(* an abstract or custom-unmarshaled field is filled from the raw message captured under ITS
+   response key (an absent key leaves the zero value) *)
+Theorem C02_special_field_filled_from_its_capture :
+  forall dec filler j caps pre fl post acc fs ch nm,
+    second_pass dec filler j caps (pre ++ fl :: post) acc = Ok fs ->
+    special fl = true -> gf_name fl = ch :: nm ->
+    (forall fl', In fl' post -> special fl' = true -> sp_key fl' <> ch :: nm) ->
+    exists acc' x,
+      second_pass dec filler j caps pre acc = Ok acc'
+      /\ filler (sdepth (gf_type fl)) (ispointer (gf_type fl)) (unwrap (gf_type fl))
+                (match assoc (ch :: nm) caps with Some c => c | None => RAbsent end)
+                (get_field acc' (ch :: nm) (zero_of (gf_type fl))) = Ok x
+      /\ forall d, get_field fs (ch :: nm) d = x.
+Proof. exact special_field_filled_from_its_capture. Qed.
+Print Assumptions C02_special_field_filled_from_its_capture.
